@@ -168,7 +168,9 @@ func parseEndpointFunc(arg ast.Expr, pkg *packages.Package) (body *ast.BlockStmt
 			panic(fmt.Sprintf("unsupported identifier %s for %s", obj, ident))
 		}
 	} else if fnLitt, ok := arg.(*ast.FuncLit); ok {
-		return fnLitt.Body, fmt.Sprintf("Anonymous%d", arg.Pos()), pkg
+		// token.Pos is an offset in the whole file set, which depends on the (parallel) parsing order
+		// of the packages: use the stable offset in the file instead
+		return fnLitt.Body, fmt.Sprintf("Anonymous%d", pkg.Fset.Position(arg.Pos()).Offset), pkg
 	}
 
 	panic(fmt.Sprintf("unsupported handler function %s", arg))
